@@ -1244,7 +1244,9 @@ PROPS["C13"]["rule"] += (" DROP GUARDS (rt stream, direct host, `(task I*)` comm
                          "metas with taskAlive, cleared only by dropTask); compared step by step, oracle key task-future-not-dropped.")
 PROPS["C13"]["level_text"] += (" TASK FUTURES ARE DROPPED (first clause): observed on the real code with drop guards and compared with the model's "
                                "dropTask accounting on every direct `(task ...)` case (a test, labelled as such; the accounting invariant "
-                               "'every live future is stored or queued' is not yet a theorem).")
+                               "'every live future is stored or queued' over whole runs is not yet a theorem). Proved about the mechanism: finished_task_future_dropped "
+                               "(finishTask clears exactly the finished task's guard and no other), dropped_task_counted_once, "
+                               "aborted_command_drops_task_futures (tasks.clear() of an aborted command drops every stored task's future, any task layer).")
 PROPS["C13"]["streams"].append(Stream("lset", "timer", "timer", lset_gen, nontrivial=lset_nontrivial, shape=lset_shape,
                                       shrink=lambda c: timer_shrinks(c)))
 PROPS["C13"]["rule"] += (" lset stream (engine timer): 1..9 legacy capability timers (caps.time.notify_after / notify_at / clear) in one real "
